@@ -31,6 +31,9 @@ PY_KEYWORDS = {"False", "None", "True", "and", "as", "assert", "async", "await",
 # attributes of celpy.evaluation.Activation that shadow `activation.<name>` in transpiled code
 ACTIVATION_ATTRS = {"identifiers", "functions", "package", "clone", "nested_activation", "resolve_variable",
                     "resolve_function", "get"}
+# … and the attributes every Python object has (`__class__ + 1` with a binding for `__class__` reads type(activation)):
+# the same zone D61 (found in round 2 by the identifier-spelling stream)
+ACTIVATION_ATTRS |= set(dir(object)) | {"__dict__", "__getattr__", "__module__", "__weakref__"}
 
 # variables bound in every generated case (name -> (type, python constructor text))
 VARS = {
